@@ -293,10 +293,16 @@ func genPrioScenario(rng *rand.Rand, g prioGen) PrioScenario {
 		case k < 16:
 			sc.Script = append(sc.Script, POp{K: "S", D: int64(1 + rng.IntN(400))})
 		case k < 17:
+			// close an input: when it has nothing left to write, or (less often) early, while
+			// its items are typically still held or buffered - later writes to it are dropped
 			p := prios[rng.IntN(len(prios))]
-			if left[p] <= 0 && !closed[p] && rng.IntN(2) == 0 {
+			if !closed[p] && (left[p] <= 0 || rng.IntN(4) == 0) {
 				closed[p] = true
+				left[p] = 0
 				sc.Script = append(sc.Script, POp{K: "C", P: p})
+				if rng.IntN(2) == 0 {
+					sc.Script = append(sc.Script, POp{K: "D"})
+				}
 			}
 		case k < 18:
 			if g.Mode == "progress" || g.Mode == "general" {
